@@ -345,6 +345,14 @@ func genC05(g *Gen) {
 		}
 		pert := func(i int, kind string, parts ...string) {
 			g.Count("pert:" + kind)
+			switch kind { // which check of VerifyEntry has to reject it
+			case "ever", "eepoch", "eidx", "epidx", "repoch", "ridx":
+				g.Count("pert-decided-by:structural-guard")
+			case "noop:ridx-explicit", "noop:ridx-zero", "noop:same-values":
+				g.Count("pert-decided-by:nothing(accept)")
+			default:
+				g.Count("pert-decided-by:digest-comparison")
+			}
 			g.Op("pert", "%d %s", i, strings.Join(parts, " "))
 		}
 		setU := func(f string, v uint64) string { return fmt.Sprintf("%s=set:%d", f, v) }
